@@ -331,6 +331,15 @@ class _Inliner:
                 b.targets = copy.deepcopy(st.targets)
             new = ast.copy_location(ast.If(test=st.value.test, body=[a], orelse=[b]), st)
             return self._stmt(new, cls, selfname, owner)
+        # `acc.append(A if c else B)` with a helper call inside A or B: `if c: acc.append(A)` / `else: acc.append(B)`
+        if (isinstance(st, ast.Expr) and isinstance(st.value, ast.Call) and len(st.value.args) == 1 and not st.value.keywords
+                and isinstance(st.value.args[0], ast.IfExp) and isinstance(st.value.func, ast.Attribute) and _call_free(st.value.func.value)
+                and (self._has_target(st.value.args[0].body, cls, selfname, owner) or self._has_target(st.value.args[0].orelse, cls, selfname, owner))):
+            cond = st.value.args[0]
+            a, b = copy.deepcopy(st), copy.deepcopy(st)
+            a.value.args, b.value.args = [cond.body], [copy.deepcopy(cond.orelse)]
+            new = ast.copy_location(ast.If(test=cond.test, body=[a], orelse=[b]), st)
+            return self._stmt(new, cls, selfname, owner)
         # expressions evaluated exactly once, before the statement's own effect
         if isinstance(st, (ast.Assign, ast.AnnAssign, ast.AugAssign, ast.Return, ast.Expr)):
             holder, field = st, "value"
@@ -1023,3 +1032,7 @@ def normalise_match(tree: ast.Module) -> int:
     if t.n:
         ast.fix_missing_locations(tree)
     return t.n
+
+
+def _call_free(e) -> bool:
+    return not any(isinstance(x, (ast.Call, ast.NamedExpr, ast.Await, ast.Yield, ast.YieldFrom)) for x in ast.walk(e))
